@@ -220,8 +220,10 @@ def cases_v(fam, cases):
         items.append("  (" + coqterm.term(c["coq_in"]) + ",\n   " + coqterm.term(c["coq_obs"]) + ")")
     lines.append(";\n".join(items))
     lines.append("].")
+    mchk = ("(kv_model_chk %s)" % fam["chk"]) if fam.get("model_chk") else "(fun _ => true)"
     lines.append('Goal True. let v := eval vm_compute in (find_bad %s cases) in idtac "BADCORR" v. '
-                 'let v := eval vm_compute in (find_bad %s cases) in idtac "BADCHK" v. exact I. Qed.' % (fam["corr"], fam["chk"]))
+                 'let v := eval vm_compute in (find_bad %s cases) in idtac "BADCHK" v. '
+                 'let v := eval vm_compute in (find_bad %s cases) in idtac "BADMODEL" v. exact I. Qed.' % (fam["corr"], fam["chk"], mchk))
     return "\n".join(lines) + "\n"
 
 
@@ -244,8 +246,11 @@ def eval_shard(args):
         return {"error": r.stdout[-4000:], "path": path}
     m1 = re.search(r"BADCORR\s+(\[[^\]]*\])", r.stdout)
     m2 = re.search(r"BADCHK\s+(\[[^\]]*\])", r.stdout)
-    if not m1 or not m2:
+    m3 = re.search(r"BADMODEL\s+(\[[^\]]*\])", r.stdout)
+    if not m1 or not m2 or not m3:
         return {"error": "no verdict in coqc output: " + r.stdout[-2000:], "path": path}
+    if parse_idx_list(m3.group(1)):
+        return {"error": "the property checker %s rejects the MODEL's own trace for cases %s of this shard (checker and model disagree: framework defect)" % (fam["chk"], m3.group(1)), "path": path}
     return {"bad_corr": parse_idx_list(m1.group(1)), "bad_chk": parse_idx_list(m2.group(1)), "path": path}
 
 
